@@ -54,6 +54,10 @@ Definition t_unknown : str := s_CLASS ++ [32; 65; 10; 9; 70; 79; 79; 32; 120; 10
 
 Definition long_name (n : nat) : str := repeat 120 n.
 
+(* "  two  spaces<TAB>tab <VT><FF> cr<CR>mid <LF> <LF><TAB><LF>end " *)
+Definition ex_ws_doc : str :=
+  [32; 32; 116; 119; 111; 32; 32; 115; 112; 97; 99; 101; 115; 9; 116; 97; 98; 32; 11; 12; 32; 99; 114; 13; 109; 105; 100; 32; 10; 32; 10; 9; 10; 101; 110; 100; 32].
+
 Definition nonvacuous2 : Prop :=
   (* the reader decodes structurally: the nested class comes first, under the joined names, members stay with their class *)
   read_all t_nested = Ok [ mkClass [Some [65; 36; 67]; None] None [mkField [73] [Some [120]; None] None] [];
@@ -83,15 +87,22 @@ Definition nonvacuous2 : Prop :=
   /\ read_bytes [] (s_CLASS ++ [32; 195; 169; 10]) = Ok [mkClass [Some [233]; None] None [] []]
   /\ read_bytes [] (s_CLASS ++ [32; 65; 255; 10]) = Err
   /\ read_bytes [] (s_CLASS ++ [32; 237; 160; 128; 10]) = Err
-  (* the comment hypothesis (no TAB, VT, FF, CR) is not vacuous caution: the format has no escapes, a TAB inside a comment
-     is a token separator for the reader and comes back as ONE SPACE — `a<TAB>b` is read back as `a b` *)
   (* the key hypothesis of the duplicate theorems holds of the empty mappings and of the example set *)
   /\ strict_keys [] /\ keys_nodup ex_classes
-  /\ docb (Some [97; 9; 98]) = false
-  /\ (match write_all [mkClass [Some [65]; None] (Some [97; 9; 98]) [] []] with
-      | Ok t => read_all t = Ok [mkClass [Some [65]; None] (Some [97; 32; 98]) [] []]
+  (* round 5 (fix "a comment keeps its tabs and spaces through the Enigma format"): a comment with a TAB, a VT, a FF, a CR inside
+     a line, runs of spaces, leading and trailing spaces, only spaces, only a TAB is inside the hypothesis and comes back
+     character for character *)
+  /\ docb (Some ex_ws_doc) = true
+  /\ (match write_all [mkClass [Some [65]; None] (Some ex_ws_doc) [mkField [73] [Some [102]; None] (Some [9])] []] with
+      | Ok t => read_all t = Ok [mkClass [Some [65]; None] (Some ex_ws_doc) [mkField [73] [Some [102]; None] (Some [9])] []]
       | Err => False
-      end).
+      end)
+  (* the one comment shape the format cannot store — a line ending in CR: `a<CR>`, `a<CR><LF>b` — is outside the hypothesis,
+     and the writer refuses it (no silent loss) *)
+  /\ docb (Some [97; 13]) = false /\ docb (Some [97; 13; 10; 98]) = false /\ docb (Some [97; 10; 13]) = false
+  /\ write_all [mkClass [Some [65]; None] (Some [97; 13]) [] []] = Err
+  /\ write_all [mkClass [Some [65]; None] None [] [mkMeth [40; 41; 86] [Some [109]; None] None [mkParam 0 [None; Some [112]] (Some [97; 13; 10; 98])]]] = Err
+  /\ write_dir [mkClass [Some [65]; None] None [mkField [73] [Some [102]; None] (Some [13])] []] = Err.
 
 Lemma nodup_dec_str (l : list (list N * list N)) : nodupb key2_eqb l = true -> NoDup l.
 Proof. apply TheoryClass.nodupb_key2_NoDup. Qed.
